@@ -189,7 +189,7 @@ Deep ==
     \* implicit over explicit, also around ANY
     Sc("any", <<CtxE(1), CtxE(2)>>), Sc("any", <<[m |-> "E", c |-> 1, n |-> B(128)], [m |-> "E", c |-> 1, n |-> B(128)]>>),
     Sc("int", <<CtxE(1), CtxE(2)>>), Sc("octs", <<Ctx(1), CtxE(2)>>), Sc("int", <<CtxE(1), Ctx(2)>>),
-    Sc("any", <<Ctx(1), CtxE(2)>>), Sc("bool", <<CtxE(31), CtxE(31)>>),
+    Sc("bool", <<CtxE(31), CtxE(31)>>),      \* (no IMPLICIT tag on ANY: X.680 31.2.7 rules it out, X.690 has no encoding for it)
     \* repeated explicitly tagged strings: with a chunk size some members are segmented (constructed) and some are not
     [k |-> "seqof", tags |-> <<>>, of |-> Sc("octs", <<CtxE(5)>>)],
     [k |-> "seqof", tags |-> <<>>, of |-> Sc("utf8", <<CtxE(40)>>)],
